@@ -2,7 +2,7 @@
    Property theorems only.  [the_table] is REGENERATED from the Go source on every check
    (Gen/GenesisTable.v); the finite theorems are by computation over it, the lifting lemmas are
    generic (Proofs/GenesisProofs.v).  The property is false for the (module, prefix) pairs listed in
-   [known_holes] (classes kf_C20 3..6, 8..11, 14..16); each class has a [_refuted] statement, and
+   [known_holes] (classes kf_C20 3..6, 8..11, 14..19); each class has a [_refuted] statement, and
    the positive theorems are stated on the complement.
    fixed: property=C20 f97a387 collector ExportGenesis emitted zero-valued net-fee records (class 1)
    fixed: property=C20 52f646d auctionsV2 InitGenesis reset the exported auction id and user bid id
@@ -15,7 +15,8 @@
    examples [c20_*_regression] below and forced cases of the behavioural runs (TestC20 cases 0, 1;
    TestC20Liq cases 0-3). *)
 From Coq Require Import String.
-From Comdex Require Import Lib.Base Lib.GenesisTypes Gen.GenesisTable Model.Genesis Proofs.GenesisProofs.
+From Comdex Require Import Lib.Base Lib.GenesisTypes Gen.GenesisTable Model.Genesis Proofs.GenesisProofs
+  Model.GenesisValidate Proofs.GenesisValidateProofs.
 Open Scope Z_scope.
 
 (* every store access / genesis shape of the 14 DeFi modules was understood by the translator *)
@@ -81,6 +82,65 @@ Theorem c20_fresh_ids : forall m b orig items v,
 Proof. exact (counter_safe_fresh the_table). Qed.
 Print Assumptions c20_fresh_ids.
 
+(* ---------------- the validation that InitGenesis / ValidateGenesis runs on the imported state ---------------- *)
+(* every statement of every module's types.GenesisState.Validate / types.ValidateGenesis was understood
+   by the translator (collections ranged over, item validators, maps built, lookups, rejecting
+   conditions): nothing is listed as unread *)
+Theorem c20_validation_recognised : validation_unread = [].
+Proof. exact validation_recognised. Qed.
+Print Assumptions c20_validation_recognised.
+
+(* every map access of every genesis validation is keyed rightly ([xref_ok]); in particular a record
+   of ANOTHER kind K is looked up through the field "<K>Id" of a record that is the item being
+   validated or was itself fetched by a checked lookup, in a map populated under each K's own Id:
+   a deposit request's pair is found through its pool's PairId, never through a pool id.  (liquidity
+   InitGenesis runs this validation and panics on its error: a lookup through the wrong id rejects
+   the module's own export as soon as pool ids and pair ids drift apart.) *)
+Theorem c20_validation_xrefs_keyed : forall x, In x val_xrefs ->
+  xref_ok val_xrefs x = true /\
+  (String.eqb (vx_kind x) "" = false -> (String.eqb (vx_owner x) (vx_kind x) && from_item x) = false ->
+   vx_keys x = [(vx_kind x ++ "Id")%string] /\ (from_item x || from_fetch val_xrefs x) = true /\
+   map_keyed_by_id val_xrefs (vx_mod x) (vx_map x) (vx_kind x) = true).
+Proof.
+  intros x Hin. pose proof (xrefs_keyed_row x Hin) as H. split; [exact H|].
+  intros Hk Hs. exact (xref_ok_reference _ _ H Hk Hs).
+Qed.
+Print Assumptions c20_validation_xrefs_keyed.
+
+(* closed world: every access is on a declared map of the stated kind, every DeFi module has an
+   AppModuleBasic.ValidateGenesis entry and no entry ignores the validation error, and every
+   collection the validation ranges over is a field ExportGenesis fills *)
+Theorem c20_validation_closed :
+  forallb (xref_declared val_maps) val_xrefs = true /\ entries_closed modules val_entries = true /\
+  forallb (coll_exported exports val_colls) val_colls = true.
+Proof. destruct validation_parts as [_ H]. exact H. Qed.
+Print Assumptions c20_validation_closed.
+
+(* non-vacuity and sensitivity: the table has the cross references of the liquidity validation (the
+   only module whose InitGenesis validates, and panics); the row the lookup `pairMap[req.PoolId]`
+   would produce is rejected, so is a map populated under another field *)
+Example c20_validation_sensitive :
+  validates_at_init val_entries = ["liquidity"%string] /\
+  (existsb (fun e => String.eqb (ve_mod e) "liquidity" && String.eqb (ve_entry e) "InitGenesis" &&
+                     String.eqb (ve_reaction e) "panic") val_entries) = true /\
+  (existsb (fun y => String.eqb (vx_coll y) "AppGenesisState.DepositRequests" && String.eqb (vx_map y) "pairMap" &&
+                     String.eqb (vx_owner y) "Pool" && String.eqb (vx_from y) "map:poolMap" &&
+                     match vx_keys y with [k] => String.eqb k "PairId" | _ => false end) val_xrefs) = true /\
+  (existsb (fun y => String.eqb (vx_coll y) "AppGenesisState.DepositRequests" && String.eqb (vx_map y) "poolMap" &&
+                     String.eqb (vx_owner y) "DepositRequest" && from_item y &&
+                     match vx_keys y with [k] => String.eqb k "PoolId" | _ => false end) val_xrefs) = true /\
+  (xref_ok val_xrefs (mkVX "liquidity" "AppGenesisState.DepositRequests" "pairMap" "Pair" "DepositRequest"
+                           "item:AppGenesisState.DepositRequests" ["PoolId"%string] "fetch")) = false /\
+  (xref_ok val_xrefs (mkVX "liquidity" "AppGenesisState.DepositRequests" "pairMap" "Pair" "Pool" "root"
+                           ["PairId"%string] "fetch")) = false /\
+  (let xs := map (fun y => if String.eqb (vx_how y) "populate" && String.eqb (vx_map y) "pairMap"
+                           then mkVX (vx_mod y) (vx_coll y) (vx_map y) (vx_kind y) (vx_owner y) (vx_from y)
+                                     ["CurrentBatchId"%string] (vx_how y) else y) val_xrefs in
+   xrefs_keyed xs = false) /\
+  (7 <= Z.of_nat (List.length (filter (fun x => negb (String.eqb (vx_kind x) "") &&
+                                                negb (String.eqb (vx_owner x) (vx_kind x))) val_xrefs))).
+Proof. vm_compute. repeat split; try reflexivity; intro; discriminate. Qed.
+
 (* ---------------- the known-finding classes: refutations on the unchanged tree ---------------- *)
 
 (* every listed hole is a live prefix of the regenerated table that does NOT survive, and every
@@ -91,8 +151,8 @@ Theorem c20_known_holes_refuted : forallb hole_is_hole known_holes = true.
 Proof. exact holes_are_holes. Qed.
 Print Assumptions c20_known_holes_refuted.
 
-(* classes 3, 6, 8, 11, 15, 16 (and the non-counter prefixes of 14): a live prefix that no genesis
-   field carries comes back empty *)
+(* classes 3, 6, 8, 11, 15, 16, 17, 19 (and the non-counter prefixes of 14): a live prefix that no
+   genesis field carries comes back empty *)
 Theorem c20_lost_refuted : forall p dv,
   In p prefixes -> classify the_table (p_mod p) (p_byte p) = CovLost ->
   exists s, get (roundtrip dv the_table (p_mod p) s) (p_byte p) <> get s (p_byte p).
@@ -128,6 +188,16 @@ Theorem c20_absent_counters_refuted :
   exists items, restored_value RAbsent 1 items = None /\ In (next_id 0) (ids items).
 Proof. repeat split; try (vm_compute; reflexivity). apply absent_restore_collides. Qed.
 Print Assumptions c20_absent_counters_refuted.
+
+(* class 18: the id counters of the external reward programmes for lockers and for vaults are never
+   written by rewards.InitGenesis although the programmes themselves (prefixes 19, 20) round-trip: with
+   programme 1 alive the counter reads 0 and the next programme is stored under id 1 again *)
+Theorem c20_ext_reward_ids_refuted :
+  counter_restore the_table "rewards" 21 = RAbsent /\ counter_restore the_table "rewards" 22 = RAbsent /\
+  cover_ok (classify the_table "rewards" 19) = true /\ cover_ok (classify the_table "rewards" 20) = true /\
+  exists items, restored_value RAbsent 1 items = None /\ In (next_id 0) (ids items).
+Proof. repeat split; try (vm_compute; reflexivity). apply absent_restore_collides. Qed.
+Print Assumptions c20_ext_reward_ids_refuted.
 
 (* class 10: the vault id is recomputed as the maximum LIVE vault id while vaults can be deleted:
    after vault 2 was closed the counter comes back as 1 and id 2 is handed out again (no collision
